@@ -72,6 +72,14 @@ def build_env(spec, presence=None):
         env[r] = v
     for n, v in (spec.get("sizes") or {}).items():
         env[n] = v
+    # solver-symbolic partition sizes: one z3 Int per name, 1 <= size <= bound (concrete value in a replay)
+    for n, hi in (spec.get("sym_sizes") or {}).items():
+        if presence is not None:
+            env[n] = int((presence.get("__sizes__") or {}).get(n, 1))
+        else:
+            v = z3.Int("size_" + n)
+            env[n] = v
+            CTX.assume.append(z3.And(v >= 1, v <= hi))
     for e in spec["exprs"]:
         for s in scalars_of(e):
             env[s] = Poly.sym(s)
@@ -196,6 +204,8 @@ def solve_any(conds, timeout_ms=120000):
         return "sat", None, 0.0
     s = z3.Solver()
     s.set("timeout", timeout_ms)
+    for a in CTX.assume:
+        s.add(a)
     s.add(z3.Or(*conds) if len(conds) > 1 else conds[0])
     r = s.check()
     dt = time.time() - t0
@@ -206,6 +216,13 @@ def solve_any(conds, timeout_ms=120000):
 
 def model_presence(P, model):
     pres = {}
+    if model is not None:
+        sizes = {}
+        for d in model.decls():
+            if d.name().startswith("size_"):
+                sizes[d.name()[5:]] = model[d].as_long()
+        if sizes:
+            pres["__sizes__"] = sizes
     for k, v in P.items():
         if v is True or v is False:
             pres[k] = v
